@@ -22,7 +22,9 @@ pub fn parse(raw: &[u8]) -> Result<IndexMap<String, Vec<u8>>> {
     // Validate magic number.
     let magic = cursor.read_u32::<BigEndian>()?;
     if magic != MAGIC {
-        todo!()
+        return Err(crate::ArchiveError::OtherError(
+            "Bad pack archive: wrong magic number.".to_string(),
+        ));
     }
 
     // Retrieve the file count.
@@ -41,6 +43,9 @@ pub fn parse(raw: &[u8]) -> Result<IndexMap<String, Vec<u8>>> {
         cursor.set_position(entry.name_address as u64);
         let name = cursor.read_shift_jis_string()?;
         cursor.set_position(entry.file_address as u64);
+        if entry.file_size_unpadded as usize > raw.len() {
+            return Err(crate::ArchiveError::ArchiveTooSmall);
+        }
         let mut contents = vec![0; entry.file_size_unpadded as usize];
         cursor.read_exact(&mut contents)?;
         entries.insert(name, contents);
